@@ -353,10 +353,26 @@ def parse(text):
         st["table"] = p.ident()
         p.need_kw("SET")
         while True:
-            col = p.ident()
-            p.need_op("=")
-            e = p.expr(stop_kw=("WHERE",))
-            st["writes"].append((col, e))
+            if p.op("("):
+                # row-value assignment `SET (a, b) = (x, y)`: the same as `a = x, b = y`
+                cols_ = [p.ident()]
+                while p.op(","):
+                    cols_.append(p.ident())
+                p.need_op(")")
+                p.need_op("=")
+                p.need_op("(")
+                vals_ = [p.expr()]
+                while p.op(","):
+                    vals_.append(p.expr())
+                p.need_op(")")
+                if len(cols_) != len(vals_):
+                    raise SqlError("column/value count mismatch in a row-value assignment")
+                st["writes"] += list(zip(cols_, vals_))
+            else:
+                col = p.ident()
+                p.need_op("=")
+                e = p.expr(stop_kw=("WHERE",))
+                st["writes"].append((col, e))
             if not p.op(","):
                 break
         if p.kw("WHERE"):
